@@ -413,7 +413,7 @@ def run(tier, seed):
     quick = tier == 'quick'
     n_prec, n_lit = (5, 3) if quick else (7, 4)
     sim_len, sim_min, sim_num = (9, 6, 15) if quick else (12, 8, 150)
-    procs = 6 if quick else 14
+    procs = 10 if quick else 14
 
     # the three TLC runs are independent: run them side by side and bind
     # each export as soon as it is there
@@ -474,7 +474,7 @@ def run(tier, seed):
         if not taken[act]:
             raise tlc.MachineryFailure(f'vacuous: action {act} never taken (prec run)')
     vec_p = fresh(vec_p)
-    bind_parallel(v, totals, tables, vec_p, seed + 1, 0.5 if quick else 0.1, procs,
+    bind_parallel(v, totals, tables, vec_p, seed + 1, 0.35 if quick else 0.1, procs,
                   chunk=1500 if quick else 4000, lean_from=99 if quick else 7)
 
     v.traces = len(seen)
